@@ -40,6 +40,7 @@ type genCfg struct {
 	LineBreak                                 string // "" = LF; "\r\n" or "\r": the whole document uses this line break
 	Huge                                      bool   // a block comment of more than 1 MiB among the top-level directives
 	MacroLadder                               int    // n macros, each pasting the next one twice (acyclic; only the last is pasted for real)
+	LadderTop                                 bool   // ... unless this is set: then the first one is pasted, and the expansion has 2^n directives
 	MutualTypesMissing                        bool   // a long type with an unknown reference and a short type referring back to it, the short one last
 	NoHTTP                                    bool   // no URL / method directives outside macros
 	LateFaults                                int    // this many different faults that only the last pipeline stage (validateCatalog) finds
@@ -577,7 +578,7 @@ func generateDoc(r *rng, cfg genCfg) *Doc {
 			}
 			body = append(body, m)
 		}
-		body = append(body, &Node{KW: "GET", Params: "/ladder", Kids: []*Node{{KW: "200", Params: "any"}, {KW: "PASTE", Params: "@" + g.ident("lad", n-1)}}})
+		body = append(body, &Node{KW: "GET", Params: "/ladder", Kids: []*Node{{KW: "200", Params: "any"}, {KW: "PASTE", Params: "@" + g.ident("lad", map[bool]int{false: n - 1, true: 0}[cfg.LadderTop])}}})
 	}
 	if cfg.DupPathParams > 0 {
 		path := "/dup"
@@ -772,6 +773,9 @@ func (d *Doc) legalRuns() [][2]int {
 
 // cutProject renders the document and cuts it into files. It returns the
 // un-cut single-file project and the cut multi-file project.
+// genStats counts what the cutter produced in this process (evidence).
+var genStats struct{ EmptyIncludes, Chains, MaxChain, Noise int }
+
 func cutProject(d *Doc, r *rng, baseDir string, maxDepth int) (single, multi Project, ncuts int) {
 	text := d.Render()
 	runs := d.legalRuns()
@@ -975,6 +979,34 @@ func cutTextPref(text string, runs [][2]int, r *rng, baseDir string, maxDepth in
 				rel = sub + "/" + name
 			}
 			indent := lines[c.from][:len(lines[c.from])-len(strings.TrimLeft(lines[c.from], " "))]
+			if r.chance(100) {
+				// the empty run: a file that holds no directive at all, included where an INCLUDE is legal
+				body := []string{"", nl, "# nothing here" + nl, "   " + nl + nl, "# a" + nl + "# b"}[r.n(5)]
+				ename := fmt.Sprintf("void%d.jst", len(multi.Files))
+				multi.set(filepath.Join(dir, ename), []byte(body))
+				sb.WriteString(indent + "INCLUDE " + ename + nl)
+				genStats.EmptyIncludes++
+			}
+			if r.chance(80) {
+				// a chain: the run that consists of this one INCLUDE is itself moved into a file, and
+				// again, up to a depth that no hand-written project reaches
+				depth := 2 + r.n(30)
+				if r.chance(200) {
+					depth = 40 + r.n(60)
+				}
+				id := len(multi.Files)
+				next := rel
+				for i := depth; i >= 1; i-- {
+					cname := fmt.Sprintf("chain%d_%d.jst", id, i)
+					multi.set(filepath.Join(dir, cname), []byte(indent+"INCLUDE "+next+nl))
+					next = cname
+				}
+				rel = next
+				genStats.Chains++
+				if depth > genStats.MaxChain {
+					genStats.MaxChain = depth
+				}
+			}
 			sb.WriteString(indent + "INCLUDE " + rel + nl)
 			ncuts++
 			at = c.to
@@ -990,4 +1022,69 @@ func cutTextPref(text string, runs [][2]int, r *rng, baseDir string, maxDepth in
 	}
 	multi.set(root, []byte(rootText))
 	return single, multi, ncuts
+}
+
+// lineNoise returns a copy of the project with a few harmless-looking edits of the kind an editor
+// or a hurried author leaves behind: blanks and tabs after the last token of a line, a '#' remark
+// after it, lines that hold only blanks, a missing final line break. Lines that close a body or a
+// block are preferred. (Whether the result is still valid does not matter to C01.)
+func lineNoise(p *Project, r *rng) Project {
+	genStats.Noise++
+	q := p.clone()
+	files := sortedKeys(q.Files)
+	if len(files) == 0 {
+		return q
+	}
+	for k := 1 + r.n(4); k > 0; k-- {
+		path := files[r.n(len(files))]
+		txt := string(q.content(path))
+		if txt == "" {
+			continue
+		}
+		lines := strings.SplitAfter(txt, "\n")
+		var closers []int
+		for i, ln := range lines {
+			t := strings.TrimRight(ln, "\r\n")
+			if t != "" && strings.ContainsAny(t[len(t)-1:], "]})\"") {
+				closers = append(closers, i)
+			}
+		}
+		i := r.n(len(lines))
+		if len(closers) > 0 && r.chance(600) {
+			i = closers[r.n(len(closers))]
+		}
+		ln := lines[i]
+		body, end := ln, ""
+		switch {
+		case strings.HasSuffix(ln, "\r\n"):
+			body, end = ln[:len(ln)-2], "\r\n"
+		case strings.HasSuffix(ln, "\n"):
+			body, end = ln[:len(ln)-1], "\n"
+		}
+		switch r.n(8) {
+		case 0:
+			body += " "
+		case 1:
+			body += "\t"
+		case 2:
+			body += "   \t "
+		case 3:
+			body += " # trailing remark"
+		case 4:
+			body += "\t# x"
+		case 5:
+			body += end + "   "
+		case 6:
+			body += " "
+			end = "" // and the line break is gone (matters on the last line; joins two lines elsewhere)
+			if i != len(lines)-1 && i != len(lines)-2 {
+				end = "\n"
+			}
+		case 7:
+			body += " #"
+		}
+		lines[i] = body + end
+		q.set(path, []byte(strings.Join(lines, "")))
+	}
+	return q
 }
